@@ -27,6 +27,7 @@ RULE = ("base filters with a string literal in every syntactic position (compari
         "absent/present; field spellings over Unicode word characters up to 128 chars. "
         "distinct = distinct (template, position, payload, dialect, alias); non-trivial = "
         "payload contains at least one SQL metacharacter")
+RULE += (" " + "Also: long and mixed in-lists (2..1001 items of 8 literal kinds around the payload); payload dictionary harvested at run time from the translators' source; templates whose sibling argument carries quotes and SQL.")
 ASSUMPTIONS = ["vpmon/ref/sql_lex.py implements SQL-92 lexical rules ('' and \"\" doubling, "
                "-- and /* */ comments)",
                "the table alias is developer input, not attacker input",
